@@ -99,18 +99,19 @@ def run_big(repo, cache):
     return out
 
 
-def run_api(repo, cache):
-    """harness/api_probe: the rarely used API surface against the commonly used entry points, debug and release builds."""
+def run_api(repo, cache, name='api_probe', tdirname='target-api'):
+    """harness/api_probe: the rarely used API surface against the commonly used entry points, debug and release builds.
+    (Also runs harness/xcrate_probe, a world declared in one crate and queried from another: name='xcrate_probe'.)"""
     out = dict(error=None, failures=[], builds=0, checks=0)
-    probe = os.path.join(ROOT, 'harness', 'api_probe')
-    toml = os.path.join(probe, 'Cargo.toml')
-    t = open(toml).read()
-    t2 = re.sub(r'gecs = \{ path = "[^"]*"', 'gecs = { path = "%s"' % repo, t)
-    if t2 != t:
-        open(toml, 'w').write(t2)
+    probe = os.path.join(ROOT, 'harness', name)
+    for toml in [os.path.join(probe, 'Cargo.toml')] + [os.path.join(probe, d_, 'Cargo.toml') for d_ in os.listdir(probe) if os.path.exists(os.path.join(probe, d_, 'Cargo.toml'))]:
+        t = open(toml).read()
+        t2 = re.sub(r'gecs = \{ path = "[^"]*"', 'gecs = { path = "%s"' % repo, t)
+        if t2 != t:
+            open(toml, 'w').write(t2)
     if not os.path.exists(os.path.join(probe, 'Cargo.lock')):
         subprocess.run(['cp', os.path.join(repo, 'Cargo.lock'), os.path.join(probe, 'Cargo.lock')])
-    tdir = os.path.join(cache, 'target-api')
+    tdir = os.path.join(cache, tdirname)
     for profile, sub in (('', 'debug'), ('--release', 'release')):
         r = subprocess.run('cargo build --offline %s --target-dir %s' % (profile, tdir), shell=True, cwd=probe, capture_output=True, text=True,
                            env=dict(os.environ, CARGO_NET_OFFLINE='true'))
@@ -121,7 +122,7 @@ def run_api(repo, cache):
                 return out
             out['failures'].append('[%s build] a legal client program using the whole API surface does not compile: %s' % (sub, ' | '.join(errs)))
             continue
-        p = subprocess.run([os.path.join(tdir, sub, 'api_probe')], capture_output=True, text=True, timeout=600)
+        p = subprocess.run([os.path.join(tdir, sub, name)], capture_output=True, text=True, timeout=600)
         out['builds'] += 1
         lines = [l for l in p.stdout.split('\n') if l]
         done = [l for l in lines if l.startswith('done ')]
